@@ -715,11 +715,17 @@ fn perturb_hook(seed: u64) {
 
 pub fn run_stress_case(case: &StressCase) -> SResult {
     let _ = panics_take();
-    clock::set_global(Some(T0));
+    // The process-wide virtual clock never goes back and is never handed back to the real clock:
+    // a worker of an earlier case that is still winding down in this process must not see
+    // SystemTime jump (stretto unwraps `created_at.elapsed()`).
+    if clock::global_now() < 0 {
+        clock::set_global(Some(T0));
+    } else {
+        clock::advance_global(10_000_000_000);
+    }
     perturb_hook(case.perturb);
     let r = std::panic::catch_unwind(std::panic::AssertUnwindSafe(|| run_inner(case)));
     stretto::verif::set_global_yield_hook(None);
-    clock::set_global(None);
     let panics = panics_take();
     match r {
         Ok(mut res) => {
